@@ -428,3 +428,4 @@ PROPS['C01']['assumptions'] = PROPS['C01']['assumptions'] + M_ASSUME[:3]
 K('C07', 'P2.already_triggered_no_charge', 'teos', _w + 'c06_add_already_triggered', 'a submission that bounces because the appointment was already responded to changes no balance (memory, database) and writes nothing')
 K('C01', 'P7.already_triggered', 'teos', _w + 'c06_add_already_triggered', 'an appointment that was already responded to cannot be replaced (AlreadyTriggered), nothing is written or sent', 'thorough')
 K('C06', 'P2.already_triggered', 'teos', _w + 'c06_add_already_triggered', 'refused request (already triggered) changes nothing', 'thorough')
+M('C10', 'M3.slot_update_atomic', 'slot_update_atomic', 'for every pair of Gatekeeper operations that change a user record (add_update_user, add_update_appointment, delete_appointments with refund) the in-memory write and the persisted write are one critical section under the users lock: no interleaving orders the two memory writes one way and the two database writes the other way, and no update lands between the read of a record and its persisted write')
